@@ -39,7 +39,10 @@ theorem solid_reser_exact (raw : List Chunk) (s : SolidEntry) (h : parseS raw = 
 /-- CLI: every transform other than `strip` keeps the private chunks of the entries it keeps… -/
 theorem edit_paths_keep_unknown_chmod (st : Cli.Strategy) (sel : Bytes → Bool) (m : Cli.Mode) (a : Cli.Archive) :
     (Cli.entriesOf (Cli.transform st (Cli.chmodF sel m) a)).map (·.extras) = (Cli.entriesOf a).map (·.extras) := by
-  rw [C10.chmod_spec, List.map_map]
+  have hw : (Cli.writtenOf st a).map (·.extras) = (Cli.entriesOf a).map (·.extras) := by
+    have := congrArg (List.map (·.extras)) (Cli.written_content st a)
+    simpa [List.map_map, Function.comp_def, Cli.LEntry.content] using this
+  rw [C10.chmod_spec, List.map_map, ← hw]
   congr 1; funext e
   simp only [Function.comp]
   split <;> rfl
